@@ -111,6 +111,35 @@ theorem observed_bytes_immutable_w {g g' : GW} {caps : Nat → Nat} (hg : GReach
   rw [hgen j _ hcell, List.getElem?_eq_getElem hlt]
   rfl
 
+/-- … with the side condition for handle `i` ONLY (`FillFreeRun i`: every `backfill` through ANOTHER iovec
+`X` finds no slice of `i` over `X`'s pending placeholder ranges — by `Props/C20W.lean` this holds throughout
+unless `i` itself is a party to a clone taken while a placeholder was pending): whatever the other handles
+do to each other — clones with pending placeholders filled twice included — every observed byte of `i`
+stays; and `i` stays live (only `drop i` ends it). -/
+theorem observed_bytes_immutable_handle {g g' : GW} {caps : Nat → Nat} (hg : GReach g.w caps)
+    (ops : List WOp) (rs : List WRet) (h : g.run ops = some (g', rs)) (i : Nat) (v : Iov)
+    (hv : g.w.iov i = some v) (hnr : ∀ op ∈ ops, ¬ op.resets i) (hff : GW.FillFreeRun i g ops) :
+    (∃ v', g'.w.iov i = some v') ∧
+    (∀ (j : Nat) (b : UInt8), (pipeHistory (absW g i))[j]? = some (Cell.byte b) →
+      (pipeHistory (absW g' i))[j]? = some (Cell.byte b)) ∧
+    ∀ j : Nat, j < (g.ghost i).length + (g.w.visible v).length →
+      (pipeHistory (absW g' i))[j]? = ((g.ghost i ++ g.w.visible v)[j]?).map Cell.byte := by
+  obtain ⟨hlive, hgen⟩ := byte_persist_run i ops g g' rs caps v hg h hv hnr hff
+  refine ⟨hlive, hgen, ?_⟩
+  intro j hj
+  have hi := hg.allInv i v hv
+  have hhist : pipeHistory (absW g i) = (g.ghost i ++ g.w.visible v).map Cell.byte ++
+      mkCells v.backrefs (v.consumedSize + (g.w.visible v).length) (g.w.flat (v.slices.drop v.stableN)) := by
+    rw [absW_live g i v hv]
+    simp only [pipeHistory, W.absCells_visible hi, List.map_append, List.append_assoc]
+  have hlt : j < (g.ghost i ++ g.w.visible v).length := by simpa using hj
+  have hcell : (pipeHistory (absW g i))[j]? = some (Cell.byte (g.ghost i ++ g.w.visible v)[j]) := by
+    rw [hhist, List.getElem?_append_left (by simpa using hlt)]
+    rw [List.getElem?_map, List.getElem?_eq_getElem hlt]
+    rfl
+  rw [hgen j _ hcell, List.getElem?_eq_getElem hlt]
+  rfl
+
 /-- The same at the level of memory, for every op but `backfill`, with NO side condition: no slice of any
 object reads different bytes after the step (heap writes go to freshly allocated arena memory);
 `backfill` through another iovec: `Props/C03W.other_handles_unchanged`. -/
